@@ -28,86 +28,53 @@
 (* traces of the real code are judged by the same invariants over the same observation variables  *)
 (* (Trace_Submitter.tla), not by the mechanism, so that another correct implementation of the     *)
 (* property would not raise an alarm.                                                             *)
-EXTENDS Integers, Sequences, FiniteSets, TLC, SubmitterScatter
+(*                                                                                                *)
+(* THE INSTANCE IS LONG-LIVED.  The submitter is built once (its nodes, their addresses, the      *)
+(* process concurrency and the time-out are fixed then) and serves every submission of the        *)
+(* process: a behaviour is a HISTORY of submissions of different kinds on one instance (NextCall). *)
+(* What a node does is decided per submission, including whether its version query works at that  *)
+(* submission (`ver`): a node can be down when Vouch starts and answer later.  C08 must hold for   *)
+(* EVERY submission of the history, and the outcome of a submission depends only on that          *)
+(* submission's own inputs and on ONE piece of state the property lets the instance keep:         *)
+(*     known[n] = the client types node n reported at successful version lookups so far          *)
+(*     (as an upper bound: what it would have reported at any submission started so far, whether  *)
+(*     or not the instance got round to asking).                                                  *)
+(* A rejection MUST be tolerated when the node reports, at this submission, a client from which    *)
+(* Vouch tolerates it (MustAccept); it MAY be tolerated when the node cannot be asked now but      *)
+(* reported such a client at an earlier submission (MayAccept: remembering a successful lookup is  *)
+(* allowed, so is asking again and classifying conservatively when the question fails now).        *)
+(* Nothing else may carry over: not the result of a FAILED lookup, not a semaphore permit held by  *)
+(* a goroutine of an earlier (or concurrently running) submission, not a completion flag.  The     *)
+(* constant Design selects the design TLC checks: "asks" (the code: a fresh semaphore, flag and    *)
+(* condition variable per submission, the node asked at every classification), "cacheok" (a        *)
+(* successful lookup is remembered and used while the node cannot be asked; also satisfies C08),   *)
+(* and two deviations that are right on every fresh instance and that TLC must REJECT over         *)
+(* histories (vacuity self-checks run by checks/C08.py): "memofail" (the first answer is           *)
+(* remembered, also the "unknown" of a failed lookup - seeded/C08-client-type-cached-on-failed-    *)
+(* lookup) and "sharedsem" (the semaphore lives on the instance: permits held by hanging node      *)
+(* calls of earlier submissions are missing later).  Overlapping submissions on one instance are   *)
+(* in SubmitterInst.tla.                                                                           *)
+EXTENDS Integers, Sequences, FiniteSets, TLC, SubmitterScatter, SubmitterClassifier
 
 CONSTANTS KindSet,      \* submission kinds explored
           ConcSet,      \* process concurrency values explored
           ItemSet,      \* payload sizes explored
-          NodeCounts    \* numbers of configured nodes explored
+          NodeCounts,   \* numbers of configured nodes explored
+          MaxCalls,     \* length of the history of submissions on one instance
+          HistClients,  \* client types of the instance's nodes in histories ({}: the canonical nodes
+                        \* of the single-submission quantifier, MaxCalls = 1)
+          HistOutcomes, \* outcomes a node can show at one submission of a history
+          Design        \* "asks" | "cacheok" | "memofail" | "sharedsem" (see above)
 
 -----------------------------------------------------------------------------
-(* Layer 1a: classification of rejections                                                        *)
+(* Layer 2: the instance, the configuration of the current submission, observation variables,    *)
+(* invariants                                                                                    *)
 
-Kinds == {"att", "agg", "proposal", "syncmsg", "contrib", "bcsub", "scsub", "prep"}
-Clients == {"lighthouse", "teku", "nimbus", "prysm", "lodestar", "unknown", "broken"}
-    \* "unknown": the node does not tell its version; "broken": the version query fails
-
-\* What a node can do with a call.  "error" carries a reason (the shape of the error it returns).
-Outs == {"accept", "error", "slowok", "late", "hang"}
-Reasons == {"none",
-            "plain",            \* free text, no JSON
-            "lhPrior",          \* lighthouse: PriorAttestationKnown
-            "lhUnknownHead",    \* lighthouse: UnknownHeadBlock
-            "nimbusTarget",     \* nimbus: Attempt to send attestation for unknown target
-            "lhDupAll",         \* lighthouse JSON, >= 1 failure, all PriorSyncCommitteeMessageKnown
-            "lhDupSome",        \* lighthouse JSON, one duplicate and one real failure
-            "tekuDupAll",       \* teku JSON, >= 1 failure, all duplicates
-            "tekuDupSome",      \* teku JSON, one duplicate and one real failure
-            "lhAggKnownAll",    \* lighthouse JSON, >= 1 failure, all AggregatorAlreadyKnown
-            "lhAggKnownSome",   \* lighthouse JSON, one already-known and one real failure
-            "attMixed",         \* attestations in several chunks: the chunk holding item 0 is rejected as
-                                \* already known (lighthouse wording), every other chunk for a real reason
-                                \* (a payload that arrives in one piece is rejected for the real reason)
-            "noFailures",       \* error JSON without a failures array (e.g. a 500)
-            "emptyFailures",    \* error JSON with "failures": []
-            "badJson"}          \* text with a brace that is not JSON
-
-\* The rejections Vouch deliberately tolerates (comments in submitattestations.go,
-\* submitsynccommitteemessages.go, submitsynccommitteecontributions.go): already known, or node
-\* behind the head; per client; for the batch kinds only when at least one failure is listed and
-\* every listed failure is a duplicate.
-Tolerated(kind, client, reason) ==
-    \/ kind = "att" /\ client = "lighthouse" /\ reason \in {"lhPrior", "lhUnknownHead"}
-    \/ kind = "att" /\ client = "nimbus" /\ reason = "nimbusTarget"
-    \/ kind = "syncmsg" /\ client = "lighthouse" /\ reason = "lhDupAll"
-    \/ kind = "syncmsg" /\ client = "teku" /\ reason = "tekuDupAll"
-    \/ kind = "contrib" /\ client = "lighthouse" /\ reason = "lhAggKnownAll"
-
-\* Reasons that make sense to script per kind (any other combination is simply a rejection).
-ReasonsOf(kind) ==
-    CASE kind = "att" -> {"plain", "lhPrior", "lhUnknownHead", "nimbusTarget", "noFailures", "attMixed"}
-      [] kind = "syncmsg" -> {"plain", "lhDupAll", "lhDupSome", "tekuDupAll", "tekuDupSome",
-                              "noFailures", "emptyFailures", "badJson"}
-      [] kind = "contrib" -> {"plain", "lhAggKnownAll", "lhAggKnownSome", "noFailures",
-                              "emptyFailures", "badJson"}
-      [] OTHER -> {"plain", "lhPrior", "noFailures"}
-
-Node(client, out, reason) == [client |-> client, out |-> out, reason |-> reason]
-
-\* The seven outcomes of the property's quantifier, as canonical node descriptions per kind:
-\* accept / reject / tolerated-reject (client-specific) / malformed-error / slow-in-time /
-\* slow-late / hang.
-TolClient(kind) == IF kind = "att" THEN "lighthouse" ELSE IF kind = "syncmsg" THEN "teku" ELSE "lighthouse"
-TolReason(kind) ==
-    CASE kind = "att" -> "lhUnknownHead"
-      [] kind = "syncmsg" -> "tekuDupAll"
-      [] kind = "contrib" -> "lhAggKnownAll"
-      [] OTHER -> "lhPrior"        \* nothing is tolerated for the other kinds: a plain rejection
-Outcomes == {"accept", "reject", "treject", "malformed", "slowok", "late", "hang"}
-Canon(kind, o) ==
-    CASE o = "accept" -> Node("prysm", "accept", "none")
-      [] o = "reject" -> Node("lighthouse", "error", "plain")
-      [] o = "treject" -> Node(TolClient(kind), "error", TolReason(kind))
-      [] o = "malformed" -> Node(TolClient(kind), "error", "noFailures")
-      [] o = "slowok" -> Node("teku", "slowok", "none")
-      [] o = "late" -> Node("nimbus", "late", "none")
-      [] o = "hang" -> Node("lodestar", "hang", "none")
-CanonNodes(kind) == {Canon(kind, o) : o \in Outcomes}
-
------------------------------------------------------------------------------
-(* Layer 2: configuration, observation variables, invariants                                     *)
-
-VARIABLES kind, conc, items, nodes,       \* configuration of this submission (nodes: sequence of Node)
+VARIABLES kind, conc, items, nodes,       \* configuration of this submission (nodes: sequence of NodeV; conc and
+                                          \* the nodes' clients belong to the instance and never change)
+          known,      \* INSTANCE, persistent: per node, the client types it reported (was ready to report) at the
+                      \* submissions started so far - all the instance can have learned about it
+          callNo,     \* INSTANCE: index of the current submission in the history
           offered,    \* per node: sequence of chunks it was called with
           callAt,     \* per node: "no" | "early" | "amb" | "late": when its first call arrived (relative to the start)
           reply,      \* per node: "none" | "accept" | "error"
@@ -118,6 +85,7 @@ VARIABLES kind, conc, items, nodes,       \* configuration of this submission (n
           final       \* the observation is over (everything that happens by T + tolerance has happened)
 
 cvars == <<kind, conc, items, nodes>>
+ivars == <<known, callNo>>
 ovars == <<offered, callAt, reply, done, pre, ret, retAt, final>>
 
 N == 1..Len(nodes)
@@ -131,6 +99,11 @@ ObsInit ==
     /\ ret = "none"
     /\ retAt = "none"
     /\ final = FALSE
+
+Learn(old, nds) == [n \in DOMAIN nds |-> old[n] \cup (IF Reported(nds[n]) = "none" THEN {} ELSE {Reported(nds[n])})]
+InstInit ==
+    /\ known = Learn([n \in N |-> {}], nodes)
+    /\ callNo = 1
 
 \* node n is called (first chunk arrives at instant class `at`) and is handed `chunks`
 ObsCall(n, chunks, at) ==
@@ -147,9 +120,32 @@ ObsReturn(r, at) ==
     /\ ret' = r
     /\ retAt' = at
 
-EffAccept(n) ==
+\* The next submission on the SAME instance: same nodes (same clients), same concurrency; kind,
+\* payload and what every node does - including whether it answers its version query - are new.
+\* Only `known` is carried over (and grows by what the nodes report from now on).
+SameInstance(nds) == Len(nds) = Len(nodes) /\ \A n \in N : nds[n].client = nodes[n].client
+ObsNextCall(k, it, nds) ==
+    /\ final
+    /\ SameInstance(nds)
+    /\ kind' = k /\ items' = it /\ nodes' = nds /\ conc' = conc
+    /\ callNo' = callNo + 1
+    /\ known' = Learn(known, nds)
+    /\ offered' = [n \in N |-> <<>>]
+    /\ callAt' = [n \in N |-> "no"]
+    /\ reply' = [n \in N |-> "none"]
+    /\ done' = [n \in N |-> "no"]
+    /\ pre' = [n \in N |-> FALSE]
+    /\ ret' = "none" /\ retAt' = "none" /\ final' = FALSE
+
+\* The node's reply counts as a delivery ...
+\* ... necessarily: accepted, or rejected for a reason tolerated from the client it reports NOW
+MustAccept(n) ==
     \/ reply[n] = "accept"
-    \/ reply[n] = "error" /\ Tolerated(kind, nodes[n].client, nodes[n].reason)
+    \/ reply[n] = "error" /\ Tolerated(kind, Reported(nodes[n]), nodes[n].reason)
+\* ... possibly: also when it cannot be asked now but reported such a client earlier on this instance
+MayAccept(n) ==
+    \/ MustAccept(n)
+    \/ reply[n] = "error" /\ \E c \in known[n] : Tolerated(kind, c, nodes[n].reason)
 
 Count(chunks, i) == Cardinality({p \in {<<c, k>> : c \in 1..Len(chunks), k \in 1..items} :
                                     p[2] <= Len(chunks[p[1]]) /\ chunks[p[1]][p[2]] = i})
@@ -160,7 +156,9 @@ Roomy == conc >= Len(nodes)
 
 \* C08, first sentence and proviso: offered in full to every node (each element once), also to a
 \* slow or hanging one.  Without room for every node the property only promises this when no
-\* node is slow.
+\* node is slow.  (What nodes did at EARLIER submissions - hanging calls still in flight - and what
+\* other submissions running now do is not part of the proviso: Roomy / AllQuick are about this
+\* submission alone.)
 OfferedInFull ==
     final => /\ (Roomy \/ AllQuick) => \A n \in N : callAt[n] # "no" /\ Whole(n)
              /\ \A n \in N : InRange(offered[n]) /\ \A i \in 0..(items - 1) : Count(offered[n], i) <= 1
@@ -169,8 +167,8 @@ OfferedInFull ==
 \* tolerated-rejected.  A success needs an acceptance that precedes the return; a failure must
 \* not coexist with an acceptance that clearly preceded the time-out.
 SuccessIff ==
-    final => /\ ret = "ok" => \E n \in N : EffAccept(n) /\ pre[n]
-             /\ ret = "err" => ~ \E n \in N : EffAccept(n) /\ done[n] = "before"
+    final => /\ ret = "ok" => \E n \in N : MayAccept(n) /\ pre[n]
+             /\ ret = "err" => ~ \E n \in N : MustAccept(n) /\ done[n] = "before"
 
 \* C08: returns no later than the time-out (also when every completion signal was lost).
 ReturnsByTimeout == final => ret # "none" /\ retAt # "after"
@@ -183,25 +181,27 @@ Independence == (final /\ Roomy) => \A n \in N : callAt[n] \notin {"no", "late"}
 
 VARIABLES mpc,        \* caller: "pre" (goroutines started, not yet in Wait) | "waiting" | "woken" | "ret"
           npc,        \* per node goroutine: "start" | "calling" | "sig" | "end"
-          sem,        \* permits taken from the weighted semaphore
+          sem,        \* permits taken from the weighted semaphore by goroutines of this submission
           due,        \* per node: clock value from which its reply is available (99: never)
           completed,  \* the atomic flag
           tpc,        \* time-out signaller: "armed" | "done"
           clock,      \* 0 start, 1 between start and T, 2 at T, 3 after T
-          lost        \* dropped signals (observation only)
+          lost,       \* dropped signals (observation only)
+          memo,       \* INSTANCE, designs "cacheok" / "memofail" only: per node the remembered client type ("unset": nothing yet)
+          held        \* INSTANCE, design "sharedsem" only: permits still held by node calls of earlier submissions
 
-mvars == <<mpc, npc, sem, due, completed, tpc, clock, lost>>
-vars == <<cvars, ovars, mvars>>
+mvars == <<mpc, npc, sem, due, completed, tpc, clock, lost, memo, held>>
+vars == <<cvars, ivars, ovars, mvars>>
 
 AtOfCall == IF clock = 0 THEN "early" ELSE "late"
 AtOfClock == IF clock <= 1 THEN "before" ELSE IF clock = 2 THEN "amb" ELSE "after"
 
-Init ==
-    /\ kind \in KindSet
-    /\ conc \in ConcSet
-    /\ items \in ItemSet
-    /\ \E k \in NodeCounts : nodes \in [1..k -> CanonNodes(kind)]
-    /\ ObsInit
+\* what every node does at one submission of a history: outcome x version query
+HistVector(k, clientOf) ==
+    {[n \in DOMAIN clientOf |-> HNode(k, clientOf[n], f[n][1], f[n][2])] :
+        f \in [DOMAIN clientOf -> HistOutcomes \X Vers]}
+
+MechInit ==
     /\ mpc = "pre"
     /\ npc = [n \in N |-> "start"]
     /\ sem = 0
@@ -211,33 +211,60 @@ Init ==
     /\ clock = 0
     /\ lost = 0
 
+Init ==
+    /\ kind \in KindSet
+    /\ conc \in ConcSet
+    /\ items \in ItemSet
+    /\ IF HistClients = {}
+       THEN \E k \in NodeCounts : nodes \in [1..k -> CanonNodes(kind)]
+       ELSE \E k \in NodeCounts : \E cl \in [1..k -> HistClients] : nodes \in HistVector(kind, cl)
+    /\ ObsInit
+    /\ InstInit
+    /\ MechInit
+    /\ memo = [n \in N |-> "unset"]
+    /\ held = 0
+
 \* w.Wait(): the caller registers on the notify list
 WaitReg ==
     /\ mpc = "pre"
     /\ mpc' = "waiting"
-    /\ UNCHANGED <<cvars, ovars, npc, sem, due, completed, tpc, clock, lost>>
+    /\ UNCHANGED <<cvars, ivars, ovars, npc, sem, due, completed, tpc, clock, lost, memo, held>>
 
 DueOf(out) == CASE out \in {"accept", "error"} -> clock
-                [] out = "slowok" -> clock + 1
+                [] out \in {"slowok", "held"} -> clock + 1
                 [] out = "late" -> IF clock < 2 THEN 3 ELSE clock + 1
                 [] out = "hang" -> 99
 
-\* sem.Acquire succeeded; the node is called with the payload (Scatter chunks for attestations)
+\* serviceInfo(): what the design remembers about node n after looking it up now
+MemoAfterLookup(n) ==
+    CASE Design = "memofail" -> IF memo[n] = "unset" THEN Reported(nodes[n]) ELSE memo[n]
+      [] Design = "cacheok" -> IF Reported(nodes[n]) # "none" THEN Reported(nodes[n]) ELSE memo[n]
+      [] OTHER -> memo[n]
+
+\* the client type the design classifies node n's rejection by
+ClassClient(n) ==
+    CASE Design = "memofail" -> memo[n]
+      [] Design = "cacheok" -> IF Reported(nodes[n]) # "none" THEN Reported(nodes[n]) ELSE memo[n]
+      [] OTHER -> Reported(nodes[n])
+
+\* sem.Acquire succeeded; the node is looked up (address, version) and called with the payload
+\* (Scatter chunks for attestations)
 AcquireCall(n) ==
     /\ npc[n] = "start"
-    /\ sem < conc
+    /\ sem + held < conc
     /\ sem' = sem + 1
     /\ npc' = [npc EXCEPT ![n] = "calling"]
     /\ due' = [due EXCEPT ![n] = DueOf(nodes[n].out)]
+    /\ memo' = [memo EXCEPT ![n] = MemoAfterLookup(n)]
     /\ ObsCall(n, ChunksFor(kind, items, conc), AtOfCall)
-    /\ UNCHANGED <<cvars, reply, done, pre, ret, retAt, final, mpc, completed, tpc, clock, lost>>
+    /\ UNCHANGED <<cvars, ivars, reply, done, pre, ret, retAt, final, mpc, completed, tpc, clock, lost, held>>
 
 \* the node replied; the code classifies the reply and, for an (effective) acceptance, sets the flag
 Complete(n) ==
     /\ npc[n] = "calling"
     /\ due[n] <= clock
-    /\ LET r == IF nodes[n].out = "error" THEN "error" ELSE "accept"
-           eff == r = "accept" \/ Tolerated(kind, nodes[n].client, nodes[n].reason)
+    /\ LET r == IF nodes[n].out = "error" \/ (nodes[n].out = "held" /\ nodes[n].reason # "none") THEN "error" ELSE "accept"
+           eff == r = "accept" \/ Tolerated(kind, ClassClient(n), nodes[n].reason)
        IN /\ ObsComplete(n, r, AtOfClock)
           /\ IF eff THEN /\ completed' = TRUE
                          /\ npc' = [npc EXCEPT ![n] = "sig"]
@@ -245,7 +272,7 @@ Complete(n) ==
                     ELSE /\ completed' = completed
                          /\ npc' = [npc EXCEPT ![n] = "end"]
                          /\ sem' = sem - 1
-    /\ UNCHANGED <<cvars, offered, callAt, ret, retAt, final, mpc, due, tpc, clock, lost>>
+    /\ UNCHANGED <<cvars, ivars, offered, callAt, ret, retAt, final, mpc, due, tpc, clock, lost, memo, held>>
 
 \* Go's Cond.Signal: wakes a registered waiter, otherwise does nothing
 SignalEffect ==
@@ -258,7 +285,7 @@ SignalN(n) ==
     /\ SignalEffect
     /\ npc' = [npc EXCEPT ![n] = "end"]
     /\ sem' = sem - 1
-    /\ UNCHANGED <<cvars, ovars, due, completed, tpc, clock>>
+    /\ UNCHANGED <<cvars, ivars, ovars, due, completed, tpc, clock, memo, held>>
 
 \* time.Sleep(timeout); w.Signal()
 TimeoutSignal ==
@@ -266,19 +293,19 @@ TimeoutSignal ==
     /\ clock >= 2
     /\ SignalEffect
     /\ tpc' = "done"
-    /\ UNCHANGED <<cvars, ovars, npc, sem, due, completed, clock>>
+    /\ UNCHANGED <<cvars, ivars, ovars, npc, sem, due, completed, clock, memo, held>>
 
 \* the caller wakes, reads the flag and returns
 Return ==
     /\ mpc = "woken"
     /\ mpc' = "ret"
     /\ ObsReturn(IF completed THEN "ok" ELSE "err", AtOfClock)
-    /\ UNCHANGED <<cvars, offered, callAt, reply, done, pre, final, npc, sem, due, completed, tpc, clock, lost>>
+    /\ UNCHANGED <<cvars, ivars, offered, callAt, reply, done, pre, final, npc, sem, due, completed, tpc, clock, lost, memo, held>>
 
 \* Env_StepsAreFast: a code step that can be taken is taken before time passes
 Urgent ==
     \/ mpc \in {"pre", "woken"}
-    \/ \E n \in N : npc[n] = "start" /\ sem < conc
+    \/ \E n \in N : npc[n] = "start" /\ sem + held < conc
     \/ \E n \in N : npc[n] = "calling" /\ due[n] <= clock
     \/ \E n \in N : npc[n] = "sig"
     \/ tpc = "armed" /\ clock >= 2
@@ -287,17 +314,37 @@ Tick ==
     /\ clock < 3
     /\ ~ Urgent
     /\ clock' = clock + 1
-    /\ UNCHANGED <<cvars, ovars, mpc, npc, sem, due, completed, tpc, lost>>
+    /\ UNCHANGED <<cvars, ivars, ovars, mpc, npc, sem, due, completed, tpc, lost, memo, held>>
 
 Finish ==
     /\ clock = 3
     /\ ~ Urgent
     /\ ~ final
     /\ final' = TRUE
-    /\ UNCHANGED <<cvars, offered, callAt, reply, done, pre, ret, retAt, mvars>>
+    /\ UNCHANGED <<cvars, ivars, offered, callAt, reply, done, pre, ret, retAt, mvars>>
+
+\* The next submission of the history.  Everything of the finished submission is dropped: its
+\* semaphore, flag, condition variable, time-out signaller and goroutines (a goroutine still blocked
+\* in a hanging node call keeps ITS submission's permit, which nobody needs any more).  The designs
+\* "cacheok" / "memofail" keep memo; "sharedsem" keeps the permits of the blocked goroutines.
+NextCall ==
+    /\ callNo < MaxCalls
+    /\ HistClients # {}
+    /\ \E k \in KindSet, it \in ItemSet :
+         \E nds \in HistVector(k, [n \in N |-> nodes[n].client]) : ObsNextCall(k, it, nds)
+    /\ mpc' = "pre"
+    /\ npc' = [n \in N |-> "start"]
+    /\ sem' = 0
+    /\ due' = [n \in N |-> 99]
+    /\ completed' = FALSE
+    /\ tpc' = "armed"
+    /\ clock' = 0
+    /\ lost' = 0
+    /\ memo' = memo
+    /\ held' = IF Design = "sharedsem" THEN held + Cardinality({n \in N : npc[n] = "calling"}) ELSE held
 
 Next ==
-    \/ WaitReg \/ TimeoutSignal \/ Return \/ Tick \/ Finish
+    \/ WaitReg \/ TimeoutSignal \/ Return \/ Tick \/ Finish \/ NextCall
     \/ \E n \in N : AcquireCall(n) \/ Complete(n) \/ SignalN(n)
 
 Spec == Init /\ [][Next]_vars
@@ -310,11 +357,21 @@ TypeOK ==
     /\ clock \in 0..3
     /\ ret \in {"none", "ok", "err"}
     /\ lost \in 0..(Len(nodes) + 1)
+    /\ callNo \in 1..MaxCalls
+    /\ \A n \in N : known[n] \subseteq Clients
 
 \* the flag is set only by an acceptance that has been observed
-FlagSound == completed => \E n \in N : EffAccept(n)
+FlagSound == completed => \E n \in N : MayAccept(n)
 
 \* the time-out signal itself is never lost (the caller is registered long before T)
 TimeoutSignalHeard == (tpc = "done" /\ ret = "none") => mpc = "woken"
 
+\* history independence, stated directly: whatever was remembered, a node that answers its version
+\* query now is classified by that answer (the deviation "memofail" breaks exactly this)
+ClassifiedByNow ==
+    \A n \in N : (npc[n] = "calling" /\ Reported(nodes[n]) # "none") => ClassClient(n) = Reported(nodes[n])
+
+\* reachability witnesses (must be VIOLATED; run by hand, see docs/C08.md)
+NeverSecondCall == callNo = 1
+NeverKnownUsed == ~ (final /\ ret = "ok" /\ ~ \E n \in N : MustAccept(n) /\ pre[n])
 =============================================================================
